@@ -117,33 +117,42 @@ def intern_strings(body):
     return defs + body
 
 
-def eval_shard(ctx, idx, hs):
-    txt = HEADER + intern_strings("Definition cases : list hcase := [\n%s\n].\n" % ";\n".join(coq_hcase(h) for h in hs))
+def eval_shard(ctx, idx, hs, premises=True):
+    """returns (mismatches, indices of the histories that satisfy every premise of the C06 theorems, error)"""
+    hdr = HEADER + ("From BD.Hist Require Import CheckPrem.\n" if premises else "")
+    txt = hdr + intern_strings("Definition cases : list hcase := [\n%s\n].\n" % ";\n".join(coq_hcase(h) for h in hs))
     txt += "Definition M := Eval vm_compute in mismatches cases.\nPrint M.\n"
-    rc, out, dt = vlib.coq_eval(ctx.scratch, "cases_hist_%d" % idx, txt)
+    if premises:
+        txt += "Definition P := Eval vm_compute in premises_hold cases.\nPrint P.\n"
+    rc, out, dt = vlib.coq_eval(ctx.scratch, "cases_hist_%s" % idx, txt)
     if rc != 0:
-        return None, out[-1500:]
-    return vlib.coq_list_result(out, "M"), None
+        return None, None, out[-1500:]
+    m = vlib.coq_list_result(out, "M")
+    pr = vlib.coq_list_result(out[out.find("P ="):], "P") if premises and "P =" in out else []
+    return m, pr, None
 
 
 COMPONENT = {1: "latest (W)", 2: "latest (R0)", 3: "latest today (R1)", 4: "recent 1 (R0)", 5: "recent 2 (R1)", 6: "recent n (R0)",
              7: "recent 3 (W)", 8: "find", 9: "directory names", 10: "files", 20: "malformed", 21: "malformed"}
 
 
-def model_check(ctx, hs, shard=6, workers=14):
-    """Replays the histories on the Coq model; returns [(history, step, name index, component)] of mismatches."""
+def model_check(ctx, hs, shard=6, workers=14, premises=True, tag=""):
+    """Replays the histories on the Coq model; returns ([(history, step, name index, component)] of mismatches,
+    [histories on which every premise of the C06 theorems holds])."""
     shards = [hs[i:i + shard] for i in range(0, len(hs), shard)]
-    bad = []
+    bad, prem = [], []
     with ThreadPoolExecutor(max_workers=workers) as ex:
-        results = list(ex.map(lambda t: eval_shard(ctx, t[0], t[1]), enumerate(shards)))
-    for sh, (res, err) in zip(shards, results):
+        results = list(ex.map(lambda t: eval_shard(ctx, "%s%d" % (tag, t[0]), t[1], premises), enumerate(shards)))
+    for sh, (res, pr, err) in zip(shards, results):
         if res is None:
             ctx.fail("correspondence", "the model could not be evaluated on a shard of histories (coqc failed)", {"log": err})
             continue
         for it in res:
-            k, stepi, namei, comp = it
+            (k, (stepi, namei, comp)) = (it[0], it[1:]) if len(it) == 4 else (it[0], it[1])
             bad.append((sh[k], stepi, namei, comp))
-    return bad
+        for k in pr or []:
+            prem.append(sh[k])
+    return bad, prem
 
 
 # ------------------------------------------------------------------------------------------------
@@ -366,12 +375,13 @@ class Monitor:
 
         def key(f):
             return (f["dir"], f["name"], f["size"], f["mtime"], json.dumps(f["lines"]), json.dumps(f["tail"]))
+        involved = [o.get("d", ""), o.get("d2", "")] + ([self.cur.d] if self.cur is not None else [])
+        tcls = next((self.taint[n] for n in involved if n in self.taint), "other")
         p = {key(f) for f in prev if f["dir"] not in mine}
         c = {key(f) for f in cur if f["dir"] not in mine}
         if p != c:
-            fails.append({"step": si, "name": o.get("d", ""), "query": "isolation", "which": t,
-                          "want": "files of other DAGs unchanged", "got": sorted(x[:2] for x in p ^ c)[:6],
-                          "cls": self.taint.get(o.get("d", ""), None) or self.taint.get(o.get("d2", ""), None) or "other"})
+            fails.append({"step": si, "name": o.get("d", "") or (self.cur.d if self.cur is not None else ""), "query": "isolation", "which": t,
+                          "want": "files of other DAGs unchanged", "got": sorted(x[:2] for x in p ^ c)[:6], "cls": tcls})
         if t == "removeold":
             dn = dirname_of(o["d"])
             before = {f["name"]: f for f in prev if f["dir"] == dn}
